@@ -308,4 +308,73 @@ theorem tieA_dynamic_select_tx_channel {σ} (g : Rng σ) (rs : RegionState) (p :
 
 #print axioms tieA_dynamic_select_tx_channel
 
+theorem toOption_eq_some {α} {x : M α} {a : α} (h : x.toOption = some a) : x = .ok a := by
+  cases x with
+  | error e => cases h
+  | ok b => cases h; rfl
+
+/-- **`C09.selectTxChannel_legal` carried over to the regenerated method**: whatever the current source of
+`DynamicChannelPlan::select_tx_channel` returns — for every well-formed plan, data rate, frame kind, generator and
+stream — carries the region's data-rate entry for `tx.dr` and the frequency of a DEFINED channel of the plan it
+leaves: a join channel for a join request, an ENABLED channel for a data frame; an uplink data rate stays one -/
+theorem tieA_select_tx_channel_legal {σ} (g : Rng σ) (rs : RegionState) (p p' : Gen.PlanSelectFn.DynamicChannelPlan)
+    (hplan : rs.plan = .dyn (planOf p)) (hw : PlanWF p) (hwf : regionWF rs = true) (dr : DR)
+    (frame : Gen.PlanSelectFn.Frame) (s s' : σ) (tx : Gen.PlanSelectFn.TxChannel)
+    (hsel : @Gen.PlanSelectFn.DynamicChannelPlan.select_tx_channel (regOf rs.id) σ (rngOf g) (fuelOf loopFuel) p s dr frame
+      = some (tx, p', s')) :
+    getDatarate rs.id tx.dr.toInt.toNat = some tx.datarate ∧
+    ChannelLegal { rs with plan := .dyn (planOf p') } (frameOf frame) (txOf tx) ∧
+    (isUplinkDatarate rs.id dr.toInt.toNat = true → isUplinkDatarate rs.id tx.dr.toInt.toNat = true) := by
+  have h := tieA_dynamic_select_tx_channel g rs p hplan hw dr frame s
+  rw [hsel, Option.map_some] at h
+  have hm := toOption_eq_some h.symm
+  obtain ⟨_, h2, h3, h4⟩ := selectTxChannel_legal g rs _ dr (frameOf frame) s s' (txOf tx) hwf hm
+  exact ⟨h2, h3, h4⟩
+
+/-! ## non-vacuity: EU868 with the three default channels, evaluated through the REGENERATED code -/
+
+/-- a generator that counts: the k-th draw is k -/
+def exGen : Rng Nat := fun n => (n, n + 1)
+
+def exChan (f : Int) : Option Gen.PlanSelectFn.Channel := some { frequency := f, _datarates := ⟨0x50⟩, dl_frequency := none }
+
+def exPlan : Gen.PlanSelectFn.DynamicChannelPlan :=
+  { channels := [exChan 868100000, exChan 868300000, exChan 868500000] ++ List.replicate 13 none,
+    channel_mask := ⟨List.replicate 9 255⟩ }
+
+/-- the same plan with every channel masked off: the fallback re-enables the three default channels -/
+def exPlanOff : Gen.PlanSelectFn.DynamicChannelPlan := { exPlan with channel_mask := ⟨List.replicate 9 0⟩ }
+
+theorem exPlan_wf : PlanWF exPlan ∧ PlanWF exPlanOff := by
+  refine ⟨⟨rfl, rfl, ?_, ?_⟩, ⟨rfl, rfl, ?_, ?_⟩⟩
+  · intro x hx; have := (List.mem_replicate.mp hx).2; omega
+  · intro c hc
+    simp [exPlan, exChan] at hc
+    rcases hc with h | h | h <;> subst h <;> exact ⟨by decide, by intro f hf; cases hf⟩
+  · intro x hx; have := (List.mem_replicate.mp hx).2; omega
+  · intro c hc
+    simp [exPlanOff, exPlan, exChan] at hc
+    rcases hc with h | h | h <;> subst h <;> exact ⟨by decide, by intro f hf; cases hf⟩
+
+/-- join: draws 0,1,2,.. → index 0 → 868.1 MHz; data from draw 5: 5 & 7 = 5 undefined, 6, 7 undefined, 8 & 7 = 0 → 868.1 MHz
+after four draws; all channels masked off: the mask afterwards has the three default channels (byte 0 = 7) -/
+example :
+    (@Gen.PlanSelectFn.DynamicChannelPlan.select_tx_channel (regOf .EU868) Nat (rngOf exGen) (fuelOf loopFuel) exPlan 0 DR._0 .Join).map
+        (fun o => (o.1.frequency, o.2.2)) = some (868100000, 1) ∧
+    (@Gen.PlanSelectFn.DynamicChannelPlan.select_tx_channel (regOf .EU868) Nat (rngOf exGen) (fuelOf loopFuel) exPlan 5 DR._3 .Data).map
+        (fun o => (o.1.frequency, o.2.2)) = some (868100000, 9) ∧
+    (@Gen.PlanSelectFn.DynamicChannelPlan.select_tx_channel (regOf .EU868) Nat (rngOf exGen) (fuelOf loopFuel) exPlanOff 1 DR._3 .Data).map
+        (fun o => (o.1.frequency, o.2.1.channel_mask._0, o.2.2)) = some (868300000, [7, 0, 0, 0, 0, 0, 0, 0, 0], 2) ∧
+    -- data rate 15 is not defined: the table lookup panics
+    (@Gen.PlanSelectFn.DynamicChannelPlan.select_tx_channel (regOf .EU868) Nat (rngOf exGen) (fuelOf loopFuel) exPlan 0 DR._15 .Data) = none ∧
+    -- a fuel of 3 steps is used up before the fourth draw (8 & 7 = 0) is looked at
+    (@Gen.PlanSelectFn.DynamicChannelPlan.select_tx_channel (regOf .EU868) Nat (rngOf exGen) (fuelOf 3) exPlan 5 DR._3 .Data) = none := by
+  decide +kernel
+
+/-- the hypotheses of `tieA_select_tx_channel_legal` hold of the EU868 plan as `State::new` builds it -/
+example : (RegionState.init .EU868).plan = .dyn (planOf exPlan) ∧ regionWF (RegionState.init .EU868) = true := by
+  decide +kernel
+
+#print axioms tieA_select_tx_channel_legal
+
 end C09
